@@ -436,6 +436,33 @@ def run(ctx):
                "its constant: the argument silently disappears from the call for some literal forms", cca.where(sb))
     ctx.floor("C04.K7 emitting loops over call arguments", n7, 1)
 
+    # ---- K8: the operands the interpreter sees are the values of the operand expressions.  In compile_bin_op and
+    # compile_compare every path to a return compiles each operand expression with compile_expr; an operand replaced
+    # by something else for some literal shapes (a pre-built lookup table, a normalised constant) makes the operator
+    # see a different value than the same operand held in a variable.
+    for fn_name, fields in (("compile_bin_op", ("left", "right")), ("compile_compare", ("expr",))):
+        g8 = prog.fn("minijinja::compiler::codegen::CodeGenerator::" + fn_name)
+        for fld in fields:
+            sites = {c.bb for c in g8.calls() if c.name == COMPILE_EXPR and len(c.args) > 1 and any(
+                fld in o.proj for o in flow.origins(g8, c.args[1]))}
+            ctx.ob("C04.K8.operand-is-compiled-as-an-expression", "%s|%s" % (fn_name, fld),
+                   bool(sites) and cfg.paths_must_pass(g8, 0, sites, g8.returns()),
+                   "a path through %s reaches its end without compile_expr on the `%s` operand: for some literal shapes "
+                   "the operator is given something other than the value of that operand expression" % (fn_name, fld), g8.loc)
+    # in compile_compare each further link's operand is compiled in the loop over `ops`
+    gcc = prog.fn("minijinja::compiler::codegen::CodeGenerator::compile_compare")
+    link_sites = {c.bb for c in gcc.calls() if c.name == COMPILE_EXPR and len(c.args) > 1 and any(
+        "as Some" in o.proj and "expr" in o.proj for o in flow.origins(gcc, c.args[1]))}
+    nexts_ = [c for c in gcc.calls() if c.name.endswith("::next")]
+    ok_link = False
+    for c in nexts_:
+        sp = errflow.result_split(gcc, c.dest["l"]) if c.dest is not None and "p" not in c.dest else None
+        for (sb, none_t, some_t, other, adt) in (sp.switches if sp else []):
+            if some_t and link_sites and all(cfg.paths_must_pass(gcc, st_, link_sites, [c.bb]) for st_ in some_t):
+                ok_link = True
+    ctx.ob("C04.K8.operand-is-compiled-as-an-expression", "compile_compare|ops[].expr", ok_link,
+           "an iteration over the links of a comparison chain can skip compile_expr on the link's operand", gcc.loc)
+
     # ---- K6: unary minus and comparison chains
     ac = prog.fn(AS_CONST)
     UNOP = "minijinja::compiler::ast::UnaryOpKind"
